@@ -89,7 +89,17 @@ func (g *gen) schema(depth int, ids []string) *ast {
 		a.Min, a.Max = g.bounds()
 		return a
 	case n < 62:
-		return g.object(depth, ids, objectIDs[g.r.Intn(len(objectIDs))])
+		o := g.object(depth, ids, objectIDs[g.r.Intn(len(objectIDs))])
+		// a free position may hold a struct-mapped object or a typed wrapper
+		if !o.IDUnenforced {
+			switch g.r.Intn(10) {
+			case 0:
+				o.Impl = "mapped"
+			case 1:
+				o.Impl = "typed"
+			}
+		}
+		return o
 	case n < 74:
 		return g.oneof(depth, ids)
 	case n < 90:
@@ -153,8 +163,13 @@ func (g *gen) scope(depth int) *ast {
 		ids = append(ids, objectIDs[perm[i]])
 	}
 	a := &ast{Kind: "scope", Root: ids[0]}
+	mapped := g.r.Intn(6) == 0 // a scope of struct-mapped objects
 	for _, id := range ids {
-		a.Objects = append(a.Objects, g.object(depth-1, ids, id))
+		o := g.object(depth-1, ids, id)
+		if mapped && !o.IDUnenforced {
+			o.Impl = "mapped"
+		}
+		a.Objects = append(a.Objects, o)
 	}
 	return a
 }
@@ -222,13 +237,27 @@ func wf(a *ast, table []*ast) bool {
 			}
 			seen[p.Name] = true
 		}
+		switch a.impl() {
+		case "plain":
+		case "mapped", "typed":
+			if a.IDUnenforced {
+				return false
+			}
+			for _, p := range a.Props {
+				if !mappedNames[p.Name] {
+					return false
+				}
+			}
+		default:
+			return false
+		}
 		return a.ID != ""
 	case "ref":
 		return lookup(table, a.ID) != nil
 	case "scope":
 		seen := map[string]bool{}
 		for _, o := range a.Objects {
-			if o.Kind != "object" || seen[o.ID] || !wf(o, a.Objects) {
+			if o.Kind != "object" || o.impl() == "typed" || seen[o.ID] || !wf(o, a.Objects) {
 				return false
 			}
 			seen[o.ID] = true
@@ -245,6 +274,9 @@ func wf(a *ast, table []*ast) bool {
 			}
 			seen[m.Key] = true
 			if m.Obj.Kind != "object" && m.Obj.Kind != "ref" && m.Obj.Kind != "scope" {
+				return false
+			}
+			if m.Obj.Kind == "object" && m.Obj.impl() == "typed" {
 				return false
 			}
 			if !wf(m.Obj, table) {
@@ -412,7 +444,17 @@ func (g *gen) mutate(s site) string {
 		}
 		return ""
 	case "object":
-		switch g.r.Intn(9) {
+		switch g.r.Intn(10) {
+		case 9:
+			switch {
+			case a.impl() != "plain":
+				a.Impl = "plain"
+			case !s.fixed && g.r.Intn(2) == 0:
+				a.Impl = "typed"
+			default:
+				a.Impl = "mapped"
+			}
+			return "object impl"
 		case 0:
 			nid := objectIDs[g.r.Intn(len(objectIDs))]
 			if nid == a.ID {
